@@ -12,24 +12,7 @@ from harness import conv
 from harness.common import NCPU, MachineryError
 
 
-def enabled_constant(run):
-    return "{" + ", ".join('"%s"' % k for k in sorted(run.known)) + "}"
-
-
-def dump_cases(run, module, cfg, constants, shards=12, require_devs=True):
-    c = dict(constants)
-    c["Enabled"] = enabled_constant(run)
-    r = run.tlc(module, cfg, shards=shards, constants=c, timeout=3000)
-    cases = r.printed
-    if not cases:
-        raise MachineryError("{} {} produced no behaviours".format(module, cfg))
-    if require_devs:
-        seen = {d for case in cases for d in case["devs"]}
-        missing = sorted(set(run.known) - seen)
-        if missing:
-            raise MachineryError("listed findings {} are unreachable in {} {} -- fix known_findings.txt or the model".format(
-                missing, module, cfg))
-    return cases
+dump_cases = conv.dump_cases
 
 
 def check(run, replay=None):
